@@ -588,8 +588,8 @@ def run(ctx: Ctx):
     res.stats["seed_relevant_calls_checked"] = n_call
     res.stats["specialisations_analysed"] = len(rng._analysis)
     res.stats["states_explored"] = rng.states
-    no_global(ctx, rng, entries)
-    seed_map(ctx)
+    ctx.guarded(no_global, ctx, rng, entries)
+    ctx.guarded(seed_map, ctx)
 
 
 def no_global(ctx, rng: Rng, entries):
